@@ -22,14 +22,15 @@ class Grammar(qc.QGrammar):
         P.queue(0, 0, -1)
         P.queue(1, 1, -1)
         P.queue(2, 2, -1)
+        P.queue(3, 4, -1)          # a workloop (sources may target one)
         nsrc = 1 + h[10] % 2
         for s in range(nsrc):
             b = h[11 + s]
             typ = [sc.T_ADD, sc.T_OR, sc.T_REPLACE][b % 3]
-            tq = [0, 1, 2, -1][(b >> 2) % 4]
+            tq = [0, 1, 2, -1, 3, 0, 1, 2][(b >> 2) % 8]
             P.source(s, typ, tq, flags=2 if (b >> 4) % 4 else 0, hwork=[0, 60, 301, 1500][(b >> 6) % 4], selfmerge=[0, 0, 0, 5][h[13 + s] % 4])
             P.features.add("type=%d" % typ)
-            P.features.add("target=%s" % {0: "serial", 1: "concurrent", 2: "global", -1: "NULL"}[tq])
+            P.features.add("target=%s" % {0: "serial", 1: "concurrent", 2: "global", -1: "NULL", 3: "workloop"}[tq])
         # the non-re-entrancy clause speaks of ANY source: half of the programs carry one more source of another type (its events are
         # produced by peers: pipe writes, pipe drains, raised signals, timer ticks) on a queue that would allow concurrency
         P.extra_src = None
@@ -61,7 +62,7 @@ class Grammar(qc.QGrammar):
             return P.op(ctx, "merge", a=s, b=vals[b % len(vals)], src=s, thread=ctx)
         if kind == "item_merge":
             tq = P.sources[s]["tq"]
-            q = tq if tq in (0, 1, 2) else 2
+            q = tq if tq in (0, 1, 2, 3) else 2
             o = P.op(ctx, "async", a=q, thread=ctx)
             P.op(P.body(o), "work", a=(c % 4) * 30)
             P.op(P.body(o), "merge", a=s, b=vals[b % len(vals)], src=s, thread=ctx)
@@ -155,7 +156,7 @@ def data_verdicts(prog, hist):
 class Check(sc.SCheck):
     prop = "C15"
     mc_workers = 3
-    rule = ("Hypothesis recipe -> program with 1-2 custom data sources (DATA_ADD / DATA_OR / DATA_REPLACE) targeting a serial, a concurrent, a global or the default (NULL) "
+    rule = ("Hypothesis recipe -> program with 1-2 custom data sources (DATA_ADD / DATA_OR / DATA_REPLACE) targeting a serial, a concurrent, a global, the default (NULL) queue or a workloop "
             "queue, with handlers of varied duration (some merge from inside the handler): 1-4 threads and queue items issue dispatch_source_merge_data with small, zero, "
             "large and wrapping values, suspend/resume the source around merges (tokens; unclaimed resumes and activations are issued by the harness when the program "
             "stalls). After the scripts the harness blocks until the totals converge (ADD/OR) or until a final sentinel merge is delivered (REPLACE), so a lost wake-up "
